@@ -10,21 +10,37 @@ Statements are about `TF.Engine.interpret` (`Model/Interp.lean`, the list-level 
 `get_max_fold_count_limit` / `get_min_fold_count_limit` and `collect_fold_elements` stops early),
 `useLimits := false` is the reference semantics (every fold fully materialised, then filtered).
 
-  Full statement — FALSE of the code today (findings F-23 and F-29; `limits_invisible_false`,
-  witnesses `limits_visible_witness`, `limits_visible_witness_nested`):
+  theorem limits_invisible (env : Env) (ir : IRQuery) … :
+      interpret { env with useLimits := false } ir = .ok rows → interpret env ir = .ok rows
 
-    theorem limits_invisible (env : Env) (ir : IRQuery) :
-        interpret { env with useLimits := false } ir = interpret env ir
+holds for EVERY query shape: there is no guard on what the query observes.  The hypotheses left are
+ * `CountRefsWF ir` — structural consistency of the IR, not a restriction on queries: a reference to
+   a fold's count carries the `fold_root_vid` of the fold with that `fold_eid`, and the folds of a
+   component have distinct Eids.  Every compiled query satisfies it (`compiled_refs_consistent`,
+   from the clauses of C11 proved for the frontend model `toIR`; `limits_invisible_compiled` is the
+   theorem without this hypothesis); for IR values in general it is needed because the engine's
+   eligibility test compares Eid and root Vid while the count is looked up by Eid alone
+   (`limits_need_consistent_refs`: an IR violating it on which the runs differ);
+ * `FoldsOK env ir` — the limit computations do not panic (implied by typed count-filter arguments,
+   `limits_of_typed_args`) and no fold has 2^64 or more elements (`elements.len() as u64`);
+ * the reference run succeeds (a panicking reference run has no rows to compare).
 
-Proved instead: (a) `max_limit_sound`, (b) `min_limit_sound` — the two limit computations anticipate
-the post-filters exactly, for every sign / magnitude / representation of the arguments; the
-single-fold theorem `foldFinish_limits_equiv`; and the global theorem `limits_invisible_partial`
-under the decidable guard `CountUnobserved ir` (no filter anywhere in the parent component and no
-import of a sibling fold uses the count tag of a fold that is eligible for the min shortcut — F-23;
-such a fold contains no fold with outputs — F-29; fold Eids distinct), for runs of the reference
-semantics that succeed, with typed count-filter arguments and folds of fewer than 2^64 elements.
+History.  Until the repairs of F-23 and F-29 (`compute_fold`: `component_has_outputs` looks into
+nested folds; `has_tag_on_fold_count` also scans the imports and post-filters of the folds of the
+parent component) the statement was FALSE of the code and was proved only under the shape guard
+`CountUnobserved` (no use of a min-eligible fold's count in a sibling fold's post-filter or inside a
+sibling fold; no outputs nested inside a min-eligible fold), with the witnesses
+`limits_visible_witness` (F-23: 0 rows instead of 1) and `limits_visible_witness_nested` (F-29:
+`[[]]` instead of `[[], [4, 6]]`).  The model mirrors the repaired test; the guard is gone; the two
+witness queries are regression examples below, on which both runs now agree.
+
+Also proved: (a) `max_limit_sound`, (b) `min_limit_sound`, `min_limit_sound_all` — the two limit
+computations anticipate the post-filters exactly, for every sign / magnitude / representation of the
+arguments; `nonexistent_fold_passes` (a fold in a missing `@optional` scope is not filtered by its
+count); the single-fold theorem `foldFinish_limits_equiv`.
 -/
 import TrustfallModel.Proofs.FoldLimitsEval
+import TrustfallModel.Proofs.FoldLimitsWF
 
 namespace TF.C22
 open TF TF.Engine Filter
@@ -84,19 +100,30 @@ theorem min_limit_sound_all (env : Env) (parent : Component) (fold : Fold) (k : 
   have : decide (t ≤ min n k) = decide (t ≤ n) := decide_eq_decide.mpr (by omega)
   rw [this]
 
+/-- A fold that does not exist for a context (it sits inside an `@optional` scope that is missing:
+the slot holds `None`, the context has no active vertex) is not filtered by its count: post-filters
+from which a min limit is computed let the context pass unchanged (before the repair of F-9 this was
+an `unreachable!`). -/
+theorem nonexistent_fold_passes (env : Env) (parent : Component) (fold : Fold) (k : Nat)
+    (hmin : minFoldLimit env fold.post none = .ok (some k)) (c : Ctx)
+    (hslot : c.foldCount? fold.eid = some none) (hact : c.active = none) :
+    applyPostFilters env parent fold fold.post c = .ok (some c) :=
+  minFoldLimit_pass_nonexistent env parent fold fold.post k hmin c hslot hact
+
 /-! ### the single-fold theorem -/
 
-/-- **One context through one fold.**  In a component satisfying the guard, for a context `c` whose
-active vertex is the fold's source and elements `computed` (fewer than 2^64): if the reference
-semantics (`(none, none)`: no limits) makes `r` of it, the engine with the limits `lim` it computes
-for this fold makes `r'` of it, where `r` and `r'` are both absent or both present and equal up to
-the fold-count slots of the truncated folds (`Ctx.norm (truncEids parent)`, which nothing but those
-folds' own post-filters reads): the same verdict of the post-filters, the same outputs. -/
+/-- **One context through one fold.**  In a component with consistent count references, for a
+context `c` whose active vertex is the fold's source and elements `computed` (fewer than 2^64): if
+the reference semantics (`(none, none)`: no limits) makes `r` of it, the engine with the limits `lim`
+it computes for this fold makes `r'` of it, where `r` and `r'` are both absent or both present and
+equal up to the fold-count slots of the truncated folds (`Ctx.norm (truncEids parent)`, which nothing
+but those folds' own post-filters reads — that is what the engine's eligibility test
+`Fold.minEligible` establishes): the same verdict of the post-filters, the same outputs. -/
 theorem foldFinish_limits_equiv (env : Env) (hu : env.useLimits = true) (parent : Component)
     (g : Fold) (hguard : compGuard parent = true) (hg : g ∈ parent.folds)
     (lim : Option Nat × Option Nat) (hlim : foldLimits env parent g = .ok lim)
     (c : Ctx) (hact : c.vertexAt? g.fromVid = some c.active) (computed : List Ctx)
-    (hclear : g.minEligible = true → ∀ e ∈ computed, e.foldedValues = [])
+    (hclear : g.minEligible parent = true → ∀ e ∈ computed, e.foldedValues = [])
     (hsmall : computed.length < 2 ^ 64) (r : Option Ctx)
     (h0 : foldFinish env.noLimits parent g (none, none) c computed = .ok r) :
     ∃ r', foldFinish env parent g lim c computed = .ok r' ∧
@@ -105,14 +132,15 @@ theorem foldFinish_limits_equiv (env : Env) (hu : env.useLimits = true) (parent 
 
 /-! ### the global theorem -/
 
-/-- The guard: for every component of the query (at every fold-nesting depth) `compGuard` holds —
-no vertex filter, no post-filter of a fold and no import of a fold of the component refers to the
-count of a fold of that component that is eligible for the min shortcut (post-filters non-empty and
-all `>=`/`>` against variables, no outputs in its own component, no count output); such a fold has
-no outputs nested inside it; the folds of the component have distinct Eids.  Decidable. -/
-def CountUnobserved (ir : IRQuery) : Prop := countUnobservedC ir.rootComponent = true
+/-- Structural consistency of the fold-count references of a query: in every component (at every
+fold-nesting depth) `compGuard` holds — every reference `FoldSpecificField { fold_eid, fold_root_vid }`
+occurring in a vertex filter, a post-filter or an import list of the component whose `fold_eid` is
+that of a fold of the component carries that fold's root Vid, and the folds of the component have
+distinct Eids.  Decidable; true of every query the frontend compiles; says nothing about which counts
+a query observes. -/
+def CountRefsWF (ir : IRQuery) : Prop := countRefsWFC ir.rootComponent = true
 
-instance (ir : IRQuery) : Decidable (CountUnobserved ir) := by unfold CountUnobserved; infer_instance
+instance (ir : IRQuery) : Decidable (CountRefsWF ir) := by unfold CountRefsWF; infer_instance
 
 /-- Side conditions on every fold of the query (with its parent component): the limit computations
 do not panic (`FoldOK.limits`, implied by typed arguments: `limits_of_typed_args`) and the fold
@@ -126,65 +154,97 @@ theorem limits_of_typed_args (env : Env) (parent : Component) (g : Fold)
     (h : ∀ f ∈ g.post, countArgTyped env f) : ∃ lim, foldLimits env parent g = .ok lim :=
   foldLimits_total env parent g h
 
-/-- **`limits_invisible`, guarded.**  If no count of a min-eligible fold is observed
-(`CountUnobserved`), the limits are computable and the folds small (`FoldsOK`), then every
-successful run of the reference semantics — all folds fully materialised before filtering — is
-reproduced by the engine with its early termination: the same rows in the same order. -/
-theorem limits_invisible_partial (env : Env) (ir : IRQuery) (hguard : CountUnobserved ir)
+/-- **`limits_invisible`.**  For every query (no restriction on its shape: the count of a fold may be
+output, tagged, used in filters of the parent component, in post-filters of sibling folds, inside
+sibling folds; anything may be nested inside the fold): if the limits are computable and the folds
+small (`FoldsOK`), every successful run of the reference semantics — all folds fully materialised
+before filtering — is reproduced by the engine with its early termination: the same rows in the same
+order. -/
+theorem limits_invisible (env : Env) (ir : IRQuery) (hwf : CountRefsWF ir)
     (hfolds : FoldsOK env ir) (rows : List Row)
     (href : interpret { env with useLimits := false } ir = .ok rows) :
     interpret env ir = .ok rows :=
-  interpret_sim env ir hguard hfolds href
+  interpret_sim env ir hwf hfolds href
 
-/-- … in the form of the full statement. -/
-theorem limits_invisible_partial_eq (env : Env) (ir : IRQuery) (hguard : CountUnobserved ir)
+/-- … in the form of an equation between the two runs. -/
+theorem limits_invisible_eq (env : Env) (ir : IRQuery) (hwf : CountRefsWF ir)
     (hfolds : FoldsOK env ir)
     (href : ∃ rows, interpret { env with useLimits := false } ir = .ok rows) :
     interpret { env with useLimits := false } ir = interpret env ir := by
   obtain ⟨rows, h⟩ := href
-  rw [h, limits_invisible_partial env ir hguard hfolds rows h]
+  rw [h, limits_invisible env ir hwf hfolds rows h]
 
-/-! ### the full statement is false: F-23 and F-29 on the model -/
+/-- Every query the frontend compiles (`toIR`, the model of the frontend of C11) satisfies the
+structural hypothesis: it follows from clauses 1, 2 and 5 of the well-formedness of compiled queries
+(a fold with Eid `e` enters vertex `e + 1`; Eids are unique; every tag operand and every import is
+defined by a vertex or fold of an enclosing component). -/
+theorem compiled_refs_consistent {S : Frontend.SchemaView} {q : Spec.Query} {ir : IRQuery}
+    (h : Frontend.toIR S q = .ok ir) : CountRefsWF ir :=
+  toIR_countRefsWF h
 
-/-- **F-23.**  `{ Four { value @output divisor @fold @transform(op:"count") @filter(op:">=",
-value:["$one"]) @tag(name:"c") multiple @fold @transform(op:"count") @output(name:"m")
-@filter(op:"=", value:["%c"]) } }` with `one = 1` on a vertex with 2 divisors and 2 multiples:
-the reference semantics yields the row `{m: 2, value: 4}`, the engine — which truncates the first
-fold to 1 element because `has_tag_on_fold_count` does not look at the sibling fold's post-filter —
-yields no row. -/
-theorem limits_visible_witness :
-    interpret { wEnv true with useLimits := false } wIR = .ok [[("m", .uint64 2), ("value", .int64 4)]] ∧
-      interpret (wEnv true) wIR = .ok [] :=
-  ⟨wRun_nolim, wRun_lim⟩
+/-- **`limits_invisible` for compiled queries**: no hypothesis about the query is left. -/
+theorem limits_invisible_compiled {S : Frontend.SchemaView} {q : Spec.Query} {ir : IRQuery}
+    (h : Frontend.toIR S q = .ok ir) (env : Env) (hfolds : FoldsOK env ir) (rows : List Row)
+    (href : interpret { env with useLimits := false } ir = .ok rows) :
+    interpret env ir = .ok rows :=
+  limits_invisible env ir (compiled_refs_consistent h) hfolds rows href
 
-/-- **F-29.**  `{ Four { value @output divisor @fold @transform(op:"count") @filter(op:">=",
-value:["$one"]) { multiple @fold { value @output(name:"inner") } } } }`: the outer fold has no
-outputs of its own and is truncated to 1 element, so the nested output `inner` — one list per
-element of the outer fold — is `[[]]` instead of `[[], [4, 6]]`. -/
-theorem limits_visible_witness_nested :
-    interpret { wEnv true with useLimits := false } nIR =
+/-! ### history: the former witnesses of F-23 and F-29 are regression examples -/
+
+/-- **Former F-23 witness.**  `{ Four { value @output divisor @fold @transform(op:"count")
+@filter(op:">=", value:["$one"]) @tag(name:"c") multiple @fold @transform(op:"count")
+@output(name:"m") @filter(op:"=", value:["%c"]) } }` with `one = 1` on a vertex with 2 divisors and
+2 multiples.  Before the repair the engine truncated the first fold to 1 element because
+`has_tag_on_fold_count` did not look at the sibling fold's post-filter, and yielded no row; now both
+runs yield the row `{m: 2, value: 4}`. -/
+example : interpret { wEnv true with useLimits := false } wIR = .ok [[("m", .uint64 2), ("value", .int64 4)]] ∧
+    interpret (wEnv true) wIR = .ok [[("m", .uint64 2), ("value", .int64 4)]] :=
+  ⟨wRun false, wRun true⟩
+
+/-- **Former F-29 witness.**  `{ Four { value @output divisor @fold @transform(op:"count")
+@filter(op:">=", value:["$one"]) { multiple @fold { value @output(name:"inner") } } } }`: the outer
+fold has no outputs of its own, but the nested output `inner` has one list per element of the outer
+fold.  Before the repair the outer fold was truncated to 1 element and `inner` was `[[]]`; now both
+runs yield `[[], [4, 6]]`. -/
+example : interpret { wEnv true with useLimits := false } nIR =
         .ok [[("inner", .list [.list [], .list [.int64 4, .int64 6]]), ("value", .int64 4)]] ∧
-      interpret (wEnv true) nIR = .ok [[("inner", .list [.list []]), ("value", .int64 4)]] :=
+      interpret (wEnv true) nIR =
+        .ok [[("inner", .list [.list [], .list [.int64 4, .int64 6]]), ("value", .int64 4)]] :=
   ⟨nRun false, nRun true⟩
 
-/-- The unguarded statement does not hold. -/
-theorem limits_invisible_false :
+/-- the engine's eligibility test now rejects both folds -/
+example : foldLimits (wEnv true) wRoot wF1 = .ok (none, none) ∧
+    foldLimits (wEnv true) nRoot nF1 = .ok (none, none) := ⟨wLimits, nLimits⟩
+
+/-- both are instances of the theorem: their count references are consistent -/
+example : CountRefsWF wIR ∧ CountRefsWF nIR := ⟨wGuard.1, wGuard.2.1⟩
+
+/-! ### the hypothesis on the references is needed -/
+
+/-- The F-23 query with an INCONSISTENT reference — the second fold's post-filter names the first
+fold's count as `(fold_eid 1, fold_root_vid 99)` although fold 1's root is 2; the frontend never
+builds this — is evaluated differently by the two runs: the eligibility test compares Eid and root
+and does not recognise the reference, the filter looks the count up by Eid and reads the truncated
+slot. -/
+theorem limits_need_consistent_refs :
+    ¬ CountRefsWF xIR ∧
+    interpret { wEnv true with useLimits := false } xIR = .ok [[("m", .uint64 2), ("value", .int64 4)]] ∧
+      interpret (wEnv true) xIR = .ok [] :=
+  ⟨by decide, xRun_nolim, xRun_lim⟩
+
+/-- Hence the statement cannot be made for arbitrary IR values without any hypothesis. -/
+theorem limits_invisible_unrestricted_false :
     ¬ ∀ (env : Env) (ir : IRQuery), interpret { env with useLimits := false } ir = interpret env ir := by
   intro h
-  have := h (wEnv true) wIR
-  rw [limits_visible_witness.1, limits_visible_witness.2] at this
+  have := h (wEnv true) xIR
+  rw [limits_need_consistent_refs.2.1, limits_need_consistent_refs.2.2] at this
   simp at this
 
 /-! ### non-vacuity -/
 
-/-- the guard rejects exactly the two witnesses … -/
-example : ¬ CountUnobserved wIR := by decide
-example : ¬ CountUnobserved nIR := by decide
-
-/-- … and admits a query in which both shortcuts are active (`divisor` truncated by the min limit 1,
-`multiple` dropped early by the max limit 1), for which all hypotheses of `limits_invisible_partial`
-hold. -/
-example : CountUnobserved gIR ∧ FoldsOK (wEnv true) gIR ∧
+/-- a query in which both shortcuts are active (`divisor` truncated by the min limit 1, `multiple`
+dropped early by the max limit 1), for which all hypotheses of `limits_invisible` hold -/
+example : CountRefsWF gIR ∧ FoldsOK (wEnv true) gIR ∧
     foldLimits (wEnv true) gRoot gF1 = .ok (none, some 1) ∧
     foldLimits (wEnv true) gRoot gF2 = .ok (some 1, none) :=
   ⟨gGuard, gFoldsOK, gTruncated.1, gTruncated.2⟩
@@ -208,10 +268,12 @@ end TF.C22
 #print axioms TF.C22.max_limit_sound
 #print axioms TF.C22.min_limit_sound
 #print axioms TF.C22.min_limit_sound_all
+#print axioms TF.C22.nonexistent_fold_passes
 #print axioms TF.C22.foldFinish_limits_equiv
 #print axioms TF.C22.limits_of_typed_args
-#print axioms TF.C22.limits_invisible_partial
-#print axioms TF.C22.limits_invisible_partial_eq
-#print axioms TF.C22.limits_visible_witness
-#print axioms TF.C22.limits_visible_witness_nested
-#print axioms TF.C22.limits_invisible_false
+#print axioms TF.C22.limits_invisible
+#print axioms TF.C22.limits_invisible_eq
+#print axioms TF.C22.compiled_refs_consistent
+#print axioms TF.C22.limits_invisible_compiled
+#print axioms TF.C22.limits_need_consistent_refs
+#print axioms TF.C22.limits_invisible_unrestricted_false
